@@ -605,13 +605,19 @@ def run_plan(plan: dict) -> dict:
             probes["probe.definition_raised_midread"] += 1
             probes["fault.raising_definition"] += 1
             return
-        if exp[0] == "input_error":
+        if exp[0] == "input_error" and got[0] == "exc" and not got[1].startswith(("TypeError", "AttributeError")):
+            probes["probe.doubly_failing_read"] += 1   # (same remark, other order)
+        elif exp[0] == "input_error":
             if got[0] != "input_error":
                 violation(out, "unset_read", f"unset_input_not_reported_as_input_error:{got[0]}",
                           f"{where}: read {nm} needs unset '{exp[1]}' but got {got[0]} {str(got[1])[:200]}")
             else:
                 probes["probe.read_unset_failed"] += 1
                 probes["fault.unset_input"] += 1
+        elif exp[0] == "exc" and got[0] == "input_error" and _needs_unset(variables, r.indep, nm):
+            # two reasons to fail at once (an unset input *and* a definition that raises on the current values): which one is
+            # reported first depends on the evaluation order, which nothing specifies -> either failure is right
+            probes["probe.doubly_failing_read"] += 1
         elif exp[0] == "exc":
             # the definition itself raises on these values: the state must propagate that same exception
             if got[0] != "exc" or got[1].split(":")[0] != exp[1].split(":")[0]:
@@ -913,6 +919,17 @@ def run_plan(plan: dict) -> dict:
     if out["violations"]:
         out["sample"]["log_tail"] = log.tail[-15:]
     return out
+
+
+def _needs_unset(variables, indep, name) -> bool:
+    from leaspy.variables.specs import Hyperparameter, IndepVariable
+    from ..ref.refeval import ancestors_of
+
+    for a in ancestors_of(variables, name) | {name}:
+        v = variables[a]
+        if isinstance(v, IndepVariable) and not isinstance(v, Hyperparameter) and indep.get(a) is None:
+            return True
+    return False
 
 
 def _is_hyper(var):
